@@ -109,6 +109,15 @@ func (p *Path) Resolve(v ssa.Value) ssa.Value {
 	return v
 }
 
+// ResolveMemless is Resolve for values that may be results of inlined calls (no memory lookup).
+func (p *Path) ResolveMemless(v ssa.Value) ssa.Value {
+	r := p.Resolve(v)
+	if r == v {
+		return v
+	}
+	return r
+}
+
 // nilness reports whether v is known nil / non-nil on this path (constants, fresh values, or an earlier test of the same value).
 func (p *Path) nilness(v ssa.Value, upto int) (isNil, known bool) {
 	v = p.Resolve(v)
@@ -138,6 +147,23 @@ func (p *Path) nilness(v ssa.Value, upto int) (isNil, known bool) {
 // consistent: no nil-test on the path contradicts what is known about its operand from constants or earlier tests (used after inlining, where caller and callee conditions were forked independently).
 func (p *Path) consistent() bool {
 	for i, cd := range p.Conds {
+		// a condition on the boolean result of an inlined callee whose path returned a constant
+		{
+			v0 := cd.V
+			for {
+				u, ok := v0.(*ssa.UnOp)
+				if !ok || u.Op != token.NOT {
+					break
+				}
+				v0 = u.X
+			}
+			if k, ok := p.ResolveMemless(v0).(*ssa.Const); ok && k.Value != nil && k.Value.Kind() == constant.Bool {
+				if constant.BoolVal(k.Value) != cd.Val {
+					return false
+				}
+				continue
+			}
+		}
 		bo, ok := cd.V.(*ssa.BinOp)
 		if !ok || (bo.Op != token.EQL && bo.Op != token.NEQ) {
 			continue
